@@ -103,6 +103,10 @@ class Driver:
                 return False
 
     def ask(self, lines, timeout=600):
+        for _ in range(60):          # the executable is replaced (briefly absent) while a concurrent `lake build` links it
+            if os.path.exists(self.bin):
+                break
+            time.sleep(2)
         r = subprocess.run([self.bin], input=("\n".join(lines) + "\n").encode(), capture_output=True, timeout=timeout)
         return r.stdout.decode().split("\n")[: len(lines)]
 
